@@ -885,7 +885,12 @@ func (g *tgen) macroStep() string {
 	tag := g.probeTag
 	if g.mlit != "" {
 		// literal sub-property: the model of (mlit) is the case's literal
-		obs := func() string { g.nprobe++; return fmt.Sprintf("(probe \"obsm%d\" (mlit))", g.nprobe) }
+		// (mlit): quasiquote template; (tlit): the body's value is the parsed
+		// literal node itself; (olit): the same as an &optional fallback;
+		// (ilit 'L): the call form's own argument node returned unchanged
+		which := g.oneOf("whichlit", "(mlit)", "(tlit)", "(tlit)", "(olit)", "(ilit (lit))")
+		g.route("litmacro:" + which)
+		obs := func() string { g.nprobe++; return fmt.Sprintf("(probe \"obsm%d\" %s)", g.nprobe, which) }
 		sort := func(e string) string { return g.sortCall(g.lits[0].ek, e) }
 		switch g.u(0, 3, "mlitshape") {
 		case 0:
@@ -950,7 +955,11 @@ func (g *tgen) macroStep() string {
 }
 
 func (g *tgen) step() string {
-	switch g.u(0, 15, "step") {
+	switch g.u(0, 22, "step") {
+	case 16, 17, 19, 20, 21:
+		return g.templateStep()
+	case 18, 22:
+		return g.formStep()
 	case 13, 14, 15:
 		return g.macroStep()
 	case 12:
